@@ -22,7 +22,7 @@ thread_local! {
     static REBUILD_PARITY: std::cell::Cell<bool> = std::cell::Cell::new(false);
 }
 
-pub const CONVS: [&str; 8] = ["raw->gds", "raw->proto", "raw->lef", "lef->raw->lef", "proto->raw->proto", "gds->raw", "raw->gds->raw", "tetris->raw"];
+pub const CONVS: [&str; 10] = ["raw->gds", "raw->proto", "raw->lef", "lef->raw->lef", "proto->raw->proto", "gds->raw", "raw->gds->raw", "tetris->raw", "gds->raw:error", "raw->proto:error"];
 
 #[derive(Clone, Debug)]
 pub struct Case {
@@ -287,6 +287,75 @@ pub fn convert_once(case: &Case) -> Result<(Vec<(String, Vec<i16>)>, String), St
             let lib = Library::from_gds(&g, None).map_err(e)?;
             Ok((vec![], dump_raw(&lib)))
         }
+        8 => {
+            // GDSII -> raw on an ill-formed hierarchy: the result is an error, and the error is part of the result.
+            // A ring of 2..=4 structs (closed by an SREF or an AREF), entered from a top struct, listed in ring
+            // order or reversed; plus a second, unrelated ring.
+            use gds21::*;
+            let n = 1 + case.port_layers.max(1);
+            let names: Vec<String> = (0..n).map(|i| format!("ring_{}", (b'a' + i as u8) as char)).collect();
+            let mut structs: Vec<GdsStruct> = vec![];
+            for i in 0..n {
+                let mut st = GdsStruct::new(names[i].clone());
+                st.elems.push(GdsElement::GdsBoundary(GdsBoundary { layer: 1, datatype: 0, xy: GdsPoint::vec(&[(0, 0), (5, 0), (5, 5), (0, 5), (0, 0)]), ..Default::default() }));
+                let next = names[(i + 1) % n].clone();
+                if i + 1 == n && case.two_shapes {
+                    st.elems.push(GdsElement::GdsArrayRef(GdsArrayRef { name: next, xy: [GdsPoint::new(0, 0), GdsPoint::new(40, 0), GdsPoint::new(0, 40)], cols: 2, rows: 2, ..Default::default() }));
+                } else {
+                    st.elems.push(GdsElement::GdsStructRef(GdsStructRef { name: next, xy: GdsPoint::new(1, 2), ..Default::default() }));
+                }
+                structs.push(st);
+            }
+            let mut top = GdsStruct::new("top");
+            top.elems.push(GdsElement::GdsStructRef(GdsStructRef { name: names[case.perm % n].clone(), xy: GdsPoint::new(0, 0), ..Default::default() }));
+            if case.two_ports {
+                let mut x = GdsStruct::new("other_x");
+                let mut y = GdsStruct::new("other_y");
+                x.elems.push(GdsElement::GdsStructRef(GdsStructRef { name: "other_y".into(), xy: GdsPoint::new(0, 0), ..Default::default() }));
+                y.elems.push(GdsElement::GdsStructRef(GdsStructRef { name: "other_x".into(), xy: GdsPoint::new(0, 0), ..Default::default() }));
+                top.elems.push(GdsElement::GdsStructRef(GdsStructRef { name: "other_x".into(), xy: GdsPoint::new(9, 9), ..Default::default() }));
+                structs.push(x);
+                structs.push(y);
+            }
+            if case.two_cells {
+                structs.reverse();
+                structs.push(top);
+            } else {
+                structs.insert(0, top);
+            }
+            let mut g = GdsLibrary::new("cyclic");
+            g.units = GdsUnits::new(1e-3, 1e-9);
+            g.structs = structs;
+            match Library::from_gds(&g, None) {
+                Ok(lib) => Ok((vec![], format!("accepted (not judged here, see C06 / C17): {}", dump_raw(&lib)))),
+                Err(x) => Ok((vec![], format!("Err: {x:?} / {x}"))),
+            }
+        }
+        9 => {
+            // raw -> protobuf on a library whose cells instantiate each other in a ring: the error is the result
+            let n = 1 + case.port_layers.max(1);
+            let cells: Vec<Ptr<Cell>> = (0..n).map(|i| Ptr::new(Cell::from(Layout { name: format!("ring{i}"), insts: vec![], elems: vec![], annotations: vec![] }))).collect();
+            for i in 0..n {
+                let target = cells[(i + 1) % n].clone();
+                cells[i].write().unwrap().layout.as_mut().unwrap().insts.push(Instance { inst_name: format!("i{i}"), cell: target, loc: Point::new(i as isize, 0), reflect_vert: false, angle: None });
+            }
+            let mut lib = Library::new("cyclic", Units::Nano);
+            let k = case.perm % n;
+            for i in 0..n {
+                lib.cells.push(cells[(i + k) % n].clone());
+            }
+            let r = lib.to_proto();
+            // break the reference cycle so that the cells are freed
+            for c in &cells {
+                if let Ok(mut c) = c.write() {
+                    c.layout = None;
+                }
+            }
+            match r {
+                Ok(p) => Ok((vec![], format!("accepted (not judged here, see C17): {} cells", p.cells.len()))),
+                Err(x) => Ok((vec![], format!("Err: {x:?} / {x}"))),
+            }
+        }
         7 => {
             // gridded layout -> raw. Part (a): a two-metal cell with cuts, an assignment and an instance on one of the
             // stacks of the C08 family, converted by the real RawExporter. Part (b): a parent listed *before* the two
@@ -299,9 +368,18 @@ pub fn convert_once(case: &Case) -> Result<(Vec<(String, Vec<i16>)>, String), St
             let cell = CellIn {
                 metals: 2,
                 size: (6, 6),
-                cuts: if case.two_shapes { vec![CrossD(0, 0, 1, 1), CrossD(0, 2, 1, 1)] } else { vec![CrossD(0, 0, 1, 1)] },
+                // (with two instances the crossings over layer-1 track 1 lie under the second one: cut at track 0)
+                cuts: {
+                    let x = if case.two_ports && !case.two_cells { 0 } else { 1 };
+                    if case.two_shapes { vec![CrossD(0, 0, 1, x), CrossD(0, 2, 1, x)] } else { vec![CrossD(0, 0, 1, x)] }
+                },
                 assigns: vec![("n".to_string(), CrossD(1, 0, 0, 1))],
-                insts: if case.two_ports { vec![InstIn { child: 0, loc: (4, 0), rh: false, rv: false }] } else { vec![] },
+                // two instances abutting along the tracks of layer 0 (same periods); with two_cells only one of them
+                insts: match (case.two_ports, case.two_cells) {
+                    (false, _) => vec![],
+                    (true, true) => vec![InstIn { child: 0, loc: (4, 0), rh: false, rv: false }],
+                    (true, false) => vec![InstIn { child: 0, loc: (4, 0), rh: false, rv: false }, InstIn { child: 0, loc: (2, 0), rh: false, rv: false }],
+                },
             };
             let cd = CaseD { stack: si, cell, children: vec![ChildD { metals: 1, size: (2, 6) }] };
             let a = match run_convert(&fam[si], &cd)? {
@@ -388,7 +466,7 @@ impl CaseDriver for C20 {
     }
     fn describe(&self, _tier: Tier) -> Describe {
         Describe {
-            rule: "inputs: raw libraries with 1-2 abstract cells whose 1-2 ports carry shapes on 1-3 layers and whose blockages sit on 0/2/3 layers (unordered maps with 1-3 keys, every insertion order), 1-2 shapes per layer, plus a layout cell with elements on 3 layers x 2 purposes, an annotation and a reflected+rotated instance; LEF / protobuf / GDSII inputs derived from them in a fixed order. Conversions: raw->GDSII (bytes, dates pinned), raw->protobuf (prost bytes), raw->LEF (serde_json), LEF->raw->LEF, protobuf->raw->protobuf, GDSII->raw, raw->GDSII->raw, gridded layout->raw (raw results as an order-preserving dump). Configurations: every input is rebuilt / re-imported with fresh HashMaps until each of the k! iteration orders of every map the exporter walks has been observed on the very map objects (minimum 32, cap 4096 rebuilds; coverage measured and reported as tags), plus fresh OS processes; conversions that expose no map (GDSII->raw) are repeated 32 times - unordered containers internal to a converter cannot be enumerated, only exercised. Two of the three layers may share a layer number. A state is (input, conversion); non-trivial = some map has >= 2 keys.".into(),
+            rule: "inputs: raw libraries with 1-2 abstract cells whose 1-2 ports carry shapes on 1-3 layers and whose blockages sit on 0/2/3 layers (unordered maps with 1-3 keys, every insertion order), 1-2 shapes per layer, plus a layout cell with elements on 3 layers x 2 purposes, an annotation and a reflected+rotated instance; LEF / protobuf / GDSII inputs derived from them in a fixed order. Conversions: raw->GDSII (bytes, dates pinned), raw->protobuf (prost bytes), raw->LEF (serde_json), LEF->raw->LEF, protobuf->raw->protobuf, GDSII->raw, raw->GDSII->raw, gridded layout->raw (raw results as an order-preserving dump; the gridded cell optionally holds two instances abutting along the tracks), and two conversions whose result is an error - GDSII->raw on struct rings of 2..4 closed by SREF / AREF (optionally a second ring, either listing order) and raw->protobuf on cell rings - where the rendered error is the compared output. Configurations: every input is rebuilt / re-imported with fresh HashMaps until each of the k! iteration orders of every map the exporter walks has been observed on the very map objects (minimum 32, cap 4096 rebuilds; coverage measured and reported as tags), plus fresh OS processes; conversions that expose no map (GDSII->raw) are repeated 32 times - unordered containers internal to a converter cannot be enumerated, only exercised. Two of the three layers may share a layer number. A state is (input, conversion); non-trivial = some map has >= 2 keys.".into(),
             assumptions: vec!["an unordered map in the raw data model itself is rendered sorted (a map has no order); every ordered container must keep its order".into()],
             excluded: vec!["gridded layout -> raw is exercised on three stacks x a few cells only (the C08 alphabet is not re-enumerated here)".into()],
             technique: "exhaustive enumeration of hash-map iteration orders (observed on the real map objects) x inputs x conversions; outputs compared byte-for-byte within and across processes".into(),
